@@ -353,6 +353,25 @@ def save_case(kind, acc):
         if not same or (isinstance(val, str) and val.startswith('exc:')):
             acc.violation('kind-spelling/' + kind, 'save(kind=%r) differs from save(kind=%r) (%s)' % (k, kind, val[:30] if isinstance(val, str) else 'document'),
                           ('save', kind))
+    if kind == 'svg':
+        # the compressed variant is selected by the file extension, in any letter case
+        import gzip, tempfile as _tf
+        d = _tf.mkdtemp(prefix='verif-c14-')
+        try:
+            ref = None
+            for ext in ('svgz', 'SVGZ', 'SvgZ'):
+                pth = os.path.join(d, 'x.' + ext)
+                try:
+                    qr.save(pth)
+                    val = gzip.decompress(open(pth, 'rb').read())
+                except Exception as e:
+                    val = 'exc:' + C.exc_name(e)
+                ref = val if ref is None else ref
+                acc.eval(('save', 'svgz', ext), nontrivial=True, outcome=(val == ref))
+                if val != ref or isinstance(val, str):
+                    acc.violation('kind-spelling/svgz', 'save(\'x.%s\') differs from save(\'x.svgz\') (%s)' % (ext, val if isinstance(val, str) else 'document'), ('save', kind))
+        finally:
+            shutil.rmtree(d, ignore_errors=True)
     for k in ('xyz', '', 'svgg', 'pn'):
         expect_refusal(acc, ('save', 'kind', k), 'save(stream, kind=%r)' % k, lambda: qr.save(io.BytesIO(), kind=k), 'kind')
 
